@@ -22,7 +22,7 @@ pub const SPECS: &[PropSpec] = &[
     PropSpec { id: "C15", level: "exploration", quick_runs: 60_000, thorough_runs: 1_500_000,
         rule: "seeded histories under all policies; per call (flush-per-call policies) or per flush point (others) the sum of wal_bytes_written is compared with the bytes of the Write effects on WAL files, and the running sum with the file-system write cursor. Non-trivial: history wrote padding, rolled over, or GC wrote position records. Distinct: history signature.",
         assumptions: &["bytes written by the GC inside open are not attributed to any call"] },
-    PropSpec { id: "C16", level: "exploration", quick_runs: 40_000, thorough_runs: 800_000,
+    PropSpec { id: "C16", level: "exploration", quick_runs: 40_000, thorough_runs: 1_600_000,
         rule: "seeded histories; after every call N+B <= memory_used_bytes <= N+B+64R, used <= allocated, truncate releases between b and b+64n, names-only baseline when all queues are empty; every fourth run additionally opens 8 damaged copies of the final image (single-frame payload damage, aimed overwrites) and requires the same bounds of the recovered log relative to the state it shows. Non-trivial: history has a truncate evicting part of a queue and a point where all queues are empty. Distinct: history signature.",
         assumptions: &["state invariant monitored while simulated histories run; no fault enters this property"] },
     PropSpec { id: "C17", level: "exploration", quick_runs: 8_000, thorough_runs: 300_000,
